@@ -44,6 +44,7 @@ type Engine struct {
 	nlaUF    bool
 	subFuns  map[string]bool
 	subCodes map[string]int
+	adtTypes map[string]types.Type
 	useAllocID bool
 	rel      *relRun
 	lastLoad map[ssa.Value]*Loc
@@ -389,6 +390,9 @@ func (e *Engine) loadLoc(st *State, loc *Loc) Val {
 			out.L[i] = Select(Select(h, loc.Base), loc.Idx)
 		}
 		return out
+	case LocOwned:
+		c := e.openChunk(st, e.ownedDecl(loc.Root), loc.Ref, loc.Root, "load")
+		return Val{T: loc.T, L: append([]Term(nil), c.F[loc.Off:loc.Off+loc.N]...)}
 	case LocArr:
 		ls := e.lay.Leaves(loc.ElemT)
 		out := Val{T: loc.T}
@@ -412,6 +416,13 @@ func (e *Engine) storeLoc(st *State, loc *Loc, v Val) {
 				e.setSliceHeap(st, loc.ElemT, i, e.nameTerm(st, e.sliceHeapKey(loc.ElemT, i), Store(h, loc.Base, Store(row, IntLit(int64(j)), v.L[j*len(ls)+i]))))
 			}
 		}
+		return
+	}
+	if loc.Kind == LocOwned {
+		c := e.openChunk(st, e.ownedDecl(loc.Root), loc.Ref, loc.Root, "store")
+		nf := append([]Term(nil), c.F...)
+		copy(nf[loc.Off:], v.L)
+		st.setChunk(&Chunk{Open: true, Ref: loc.Ref, F: nf})
 		return
 	}
 	if len(v.L) != loc.N {
@@ -470,6 +481,9 @@ func (e *Engine) locOf(pv Val) *Loc {
 		}
 	}
 	el := pt.Elem()
+	if e.ownedDecl(el) != nil {
+		return &Loc{Kind: LocOwned, Ref: pv.L[0], Root: el, Off: 0, N: len(e.lay.Leaves(el)), T: el}
+	}
 	return &Loc{Kind: LocObj, Ref: pv.L[0], Root: el, Off: 0, N: len(e.lay.Leaves(el)), T: el}
 }
 
